@@ -78,7 +78,12 @@ def mutate_zip(rng: random.Random, b: bytes) -> tuple[str, bytes] | None:
     if not names:
         return None
     victim = rng.choice(names)
-    mode = rng.choice(["member-hostile", "member-mutated", "member-dropped", "member-empty", "member-renamed"])
+    mode = rng.choice(["member-hostile", "member-mutated", "member-dropped", "member-empty", "member-renamed",
+                       "xml-attr-garbage", "xml-attr-garbage"])
+    if mode == "xml-attr-garbage":
+        xmls = [n for n in names if n.lower().endswith((".xml", ".rels", ".opf", ".xhtml"))]
+        if xmls:
+            victim = rng.choice(xmls)
     out = io.BytesIO()
     with zipfile.ZipFile(out, "w", zipfile.ZIP_DEFLATED) as zout:
         for nme in names:
@@ -97,6 +102,15 @@ def mutate_zip(rng: random.Random, b: bytes) -> tuple[str, bytes] | None:
                     data = mutate_bytes(rng, data, data)[1]
                 elif mode == "member-renamed":
                     nme = nme + ".bak"
+                elif mode == "xml-attr-garbage":
+                    # well-formed XML whose attribute values are outside their enumerations / types
+                    import re as _re
+                    vals = list(_re.finditer(rb'="([^"]{1,40})"', data))
+                    if vals:
+                        ba = bytearray(data)
+                        for mm in rng.sample(vals, k=min(len(vals), rng.randint(1, 3)))[::-1]:
+                            ba[mm.start(1):mm.end(1)] = rng.choice([b"sideways", b"plaid", b"-1", b"99999999999", b"", b"NaN"])
+                        data = bytes(ba)
             zout.writestr(nme, data)
     return f"{mode}:{victim}", out.getvalue()
 
